@@ -24,6 +24,7 @@ Rec == st = "recorded"
 Width(c) == [s \in 1..Len(c.width) |-> c.width[s]]
 Canon(c) == [s \in 1..Len(c.canon) |-> c.canon[s]]
 
+NoCrash == Rec => C.crash = ""
 (* rules that accept the empty string must be rejected, others with distinct languages compile *)
 CompileVerdict == Rec => (AcceptsEmpty(C.rules) => C.err # "")
 ScansConform ==
